@@ -295,7 +295,8 @@ pub struct PubCase {
     /// 0 = ASCII topic, 1 = topic of multi-byte UTF-8 characters (length counts bytes, rounded down to whole characters)
     #[serde(default)]
     pub topic_kind: u8,
-    /// 0 = Publication::bytes, 1 = Publication::new with a closure that uses its whole buffer as scratch, 2 = Publication::text
+    /// 0 = Publication::bytes, 1 = Publication::new with a closure that uses its whole buffer as scratch, 2 = Publication::text,
+    /// 3 = a closure that writes what fits and reports the length it needs, 4 = a closure that scribbles and fails
     #[serde(default)]
     pub payload_kind: u8,
     /// Some(n): instead of the property-set table, one Content Type property of n bytes (property-block length boundaries)
@@ -436,6 +437,26 @@ pub fn eval_pub(c: &PubCase) -> CaseOut {
                     let q = chain!(Publication::new(&topic, f));
                     bench.run(conn.publish(q), id)
                 }
+                3 => {
+                    // a writer in the style of snprintf: writes what fits and reports the length it needs
+                    let src = payload.clone();
+                    let f = move |buf: &mut [u8]| -> Result<usize, ()> {
+                        let n = buf.len().min(src.len());
+                        buf[..n].copy_from_slice(&src[..n]);
+                        Ok(src.len())
+                    };
+                    let q = chain!(Publication::new(&topic, f));
+                    bench.run(conn.publish(q), id)
+                }
+                4 => {
+                    // a writer that scribbles over all it is given and then gives up
+                    let f = move |buf: &mut [u8]| -> Result<usize, ()> {
+                        buf.fill(0x30);
+                        Err(())
+                    };
+                    let q = chain!(Publication::new(&topic, f));
+                    bench.run(conn.publish(q), id)
+                }
                 2 => {
                     let text = std::str::from_utf8(&payload).unwrap();
                     let q = chain!(Publication::text(&topic, text));
@@ -479,6 +500,9 @@ pub fn eval_pub(c: &PubCase) -> CaseOut {
         match r {
             Ok(has_handle) => {
                 class = 1u8;
+                if c.payload_kind == 4 {
+                    flag(&mut viol, "failed-payload-writer-ignored", &format!("qos{}", c.qos), format!("the payload writer returned an error but publish returned Ok and {} bytes were written", written.len()));
+                }
                 if !encodable {
                     flag(&mut viol, "unencodable-request-sent", &format!("qos{}", c.qos), format!("publish with a field longer than 65535 bytes returned Ok and {} bytes were written ({:?})", written.len(), c));
                 }
@@ -651,7 +675,10 @@ fn pub_cases(tier: Tier) -> Vec<PubCase> {
     for tx in [24usize, 40, 64, 100] {
         for payload_len in 0..=tx + 12 {
             for qos in 0..3u8 {
-                for payload_kind in 0..3u8 {
+                for payload_kind in 0..5u8 {
+                    if payload_kind == 4 && payload_len > 2 {
+                        continue;
+                    }
                     v.push(PubCase { tx, qos, payload_len, payload_kind, ..base.clone() });
                 }
             }
